@@ -115,3 +115,14 @@ def sections_parallel(rep: Report, items, jobs=8):
                 rep.vacuity[k] = v
         rep.unproved_conjuncts.extend(unp)
         rep.bounded.extend(bnd)
+
+
+def result_lists(env, expected, kinds=(list,)):
+    """names of the local lists a loop fills, independent of what the code calls them: the expected names when they exist, otherwise
+    the function's list-valued locals in the order they were created (a pure renaming); anything else does not fit the contract"""
+    if all(nm in env.vars for nm in expected):
+        return list(expected)
+    names = [k for k, v in env.vars.items() if isinstance(v, kinds)]
+    if len(names) != len(expected):
+        raise Unsupported("expected %d result lists %s among the locals, found %s" % (len(expected), list(expected), names))
+    return names
